@@ -7,7 +7,8 @@ RULE = ("histories of length 2-4 over {option change + setup, solve, solve-witho
 
 
 def run(ctx):
-    ctx.prove()
+    # C13c: over the code-level models the start-up and every cycle read nothing an earlier solve could have left behind
+    ctx.prove(extra_modules=["GMGProofs.Props.C13c"])
     h = ctx.build_harness("h_solver")
     ctx.pipe([h, "reuse", "25" if ctx.tier == "quick" else "300"], "trace", label="reuse-histories")
     ctx.assumptions += ["single thread in the histories so that reused and fresh runs are bit-comparable (thread-count independence is C12)"]
